@@ -815,6 +815,8 @@ def monitor(case, obs):
     return False
   first_open = True
   consumed = set()
+  open_greenlet_starting = False
+  opens_running = []
   for p, (k, e) in enumerate(flat):
     if e[0] == 'api' and e[1] == 'open' and effective_open(p):
       if first_open:
@@ -831,8 +833,20 @@ def monitor(case, obs):
         inc_closed = False
         inc_no += 1
         established = False
-    if e[0] == 'w' and e[1] == 'open-end' and e[2] == 'ok':
-      established = True
+    # whose socket.open() is this: the _OpenImpl greenlet's (it starts right after '_SafeLinkHelper' runs) or the time-out
+    # handler's re-connect?  Only a successful connect of the incarnation's OWN Open() establishes it: that is what sets
+    # _state = Open.  A re-connect by the time-out handler of an (out of contract) request on a sink whose Open() failed
+    # makes the socket usable again but leaves _state Closed, and the model (C08_serial_fail_once: no Faulted when the
+    # transport already reported Closed before the failing re-connect) says no further signal is owed.
+    if e[0] == 'run' and e[1] == '_SafeLinkHelper':
+      open_greenlet_starting = True
+    if e[0] == 'w' and e[1] == 'open-begin':
+      opens_running.append('open' if open_greenlet_starting else 'txn')
+      open_greenlet_starting = False
+    if e[0] == 'w' and e[1] == 'open-end':
+      who = opens_running.pop(0) if opens_running else 'txn'
+      if e[2] == 'ok' and who == 'open':
+        established = True
     if e[0] == 'io' and e[1] == 'connect-begin':
       per_conn = 0
     if p in fl and not inc_closed and established:
